@@ -30,6 +30,10 @@ type Cfg struct {
 	// replaced, inside its window, by one with another threshold; what is admitted afterwards must follow the
 	// rule in force, not the budget of the replaced one. [threshold before, requests before, threshold after, requests after]
 	Budget []int64 `json:"budget,omitempty"`
+	// Scribble: whatever a getter returns is the caller's: after every look at the getters the harness writes
+	// over everything reachable from the returned rules (maps and pointers in them included). The rules in force
+	// and what the getters report next are unaffected.
+	Scribble bool `json:"scribble,omitempty"`
 }
 
 const nRes = 3
@@ -67,7 +71,7 @@ func encList(l []int) []string {
 }
 
 func (P) Gen(rng *sim.Rng, tier string) *harness.Case {
-	cfg := Cfg{Origin: 1700000000000 + rng.U64Range(0, 100000)}
+	cfg := Cfg{Origin: 1700000000000 + rng.U64Range(0, 100000), Scribble: rng.Chance(0.3)}
 	if rng.Chance(0.04) {
 		a := int64([]int{1, 2, 5, 100}[rng.Intn(4)])
 		b := int64([]int{1, 2, 5, 100}[rng.Intn(4)])
@@ -655,7 +659,7 @@ func (P) Exec(c *harness.Case) *harness.Outcome {
 			prevProbe = now
 		}
 		// getters and enforcement accessors after every operation
-		if !checkState(o, step, model) {
+		if !checkState(o, step, model, cfg.Scribble) {
 			return o
 		}
 	}
@@ -663,7 +667,7 @@ func (P) Exec(c *harness.Case) *harness.Outcome {
 	return o
 }
 
-func checkState(o *harness.Outcome, step int, model []rset) bool {
+func checkState(o *harness.Outcome, step int, model []rset, scribble bool) bool {
 	ok := harness.Call(o, "C13.getter-panicked", step, func() {
 		for m := 0; m < rs.NumModules; m++ {
 			var all []string
@@ -702,6 +706,14 @@ func checkState(o *harness.Outcome, step int, model []rset) bool {
 				for _, r := range hotspot.GetRules() {
 					r := r
 					all = append(all, rs.Token(&r))
+					if scribble {
+						for k := range r.SpecificItems {
+							r.SpecificItems[k] = 424242
+						}
+						if r.SpecificItems != nil {
+							r.SpecificItems["scribbled"] = 1
+						}
+					}
 				}
 				for i := 0; i < nRes; i++ {
 					n := rs.ResName(i)
@@ -740,6 +752,10 @@ func checkState(o *harness.Outcome, step int, model []rset) bool {
 					if r.Rule != nil {
 						r := r
 						all = append(all, rs.Token(&r))
+						if scribble {
+							o.Probe("getter_results_scribbled_on")
+							r.Rule.Id, r.Rule.Threshold, r.Rule.RetryTimeoutMs, r.Rule.MinRequestAmount, r.Rule.Strategy = "scribbled", 424242, 1, 424242, cb.SlowRequestRatio
+						}
 					}
 				}
 				for i := 0; i < nRes; i++ {
